@@ -249,8 +249,25 @@ fn lean_cursors(a: &RefAuto, set: &StateSet, probes: &Probes, vocab: &Vocabulary
     out.insert(String::new());
     out.insert("zz".into());
     let first = candidates(a, set, "", probes);
-    let mut level1: Vec<String> = first.must.iter().cloned().collect();
-    level1.sort();
+    let mut level1: BTreeSet<String> = first.must.iter().cloned().collect();
+    // items of every fallback level, not only the winning one
+    for (l, _) in a.out_edges(set) {
+        match &a.labels[l] {
+            RLabel::Lit { text, .. } => {
+                level1.insert(text.clone());
+            }
+            RLabel::Cmd { text, .. } => level1.extend(probes.candidates(text)),
+            RLabel::Sub { auto, .. } => {
+                let mut one = RefAuto::default();
+                let _ = &mut one;
+                let (c, p) = sub_values(auto, probes, 1, 12);
+                level1.extend(c);
+                level1.extend(p);
+            }
+            RLabel::Star => {}
+        }
+    }
+    let level1: Vec<String> = level1.into_iter().collect();
     for c in &level1 {
         let cs: Vec<char> = c.chars().collect();
         out.insert(cs[..1].iter().collect());
@@ -270,6 +287,11 @@ fn lean_cursors(a: &RefAuto, set: &StateSet, probes: &Probes, vocab: &Vocabulary
         out.insert(w.clone());
     }
     out
+}
+
+thread_local! {
+    /// run the empty-COMP_WORDBREAKS variant only for every n-th eligible cursor word (1 = all)
+    pub static EMPTY_WB_STRIDE: std::cell::Cell<usize> = const { std::cell::Cell::new(1) };
 }
 
 pub fn explore(a: &RefAuto, probes: &Probes, vocab: &Vocabulary, depth: usize, max_traces: usize) -> Exploration {
@@ -299,7 +321,10 @@ pub fn explore_mode(a: &RefAuto, probes: &Probes, vocab: &Vocabulary, depth: usi
             ex.traces.push(Trace { path: path.clone(), cursor: c.clone(), default_wb: true, state: state.clone() });
             // the empty COMP_WORDBREAKS run only differs when the prefix holds a break character
             if c.chars().any(|ch| DEFAULT_WORDBREAKS.contains(ch)) || (c.is_empty() && path.len() % 2 == 0) {
-                ex.traces.push(Trace { path: path.clone(), cursor: c.clone(), default_wb: false, state: state.clone() });
+                let stride = EMPTY_WB_STRIDE.with(|s| s.get()).max(1);
+                if ex.traces.len() % stride == 0 {
+                    ex.traces.push(Trace { path: path.clone(), cursor: c.clone(), default_wb: false, state: state.clone() });
+                }
             }
         }
     };
@@ -445,6 +470,7 @@ pub struct GrammarRun {
     pub mismatches: Vec<Mismatch>,
     pub answers: Vec<Answer>,
     pub outcomes: BTreeSet<u64>,
+    pub log_checked: u64,
 }
 
 pub enum RunError {
@@ -457,6 +483,11 @@ pub enum RunError {
 /// Compile `g` for bash (library pipeline; bound to the binary by C06/C14), explore the model,
 /// replay every trace in bash, classify disagreements with the deviation rules.
 pub fn run_grammar(g: &G, defs: &[ProbeDef], probes: &Probes, depth: usize, max_traces: usize, restrict_c01: bool, lean: bool, scratch: &Scratch) -> Result<GrammarRun, RunError> {
+    run_grammar_opts(g, defs, probes, depth, max_traces, restrict_c01, lean, false, scratch)
+}
+
+#[allow(clippy::too_many_arguments)]
+pub fn run_grammar_opts(g: &G, defs: &[ProbeDef], probes: &Probes, depth: usize, max_traces: usize, restrict_c01: bool, lean: bool, check_log: bool, scratch: &Scratch) -> Result<GrammarRun, RunError> {
     let text = print_grammar(g);
     let c = match pipe::compile(&text, Shell::Bash) {
         Outcome::Ok(c) => c,
@@ -493,7 +524,7 @@ pub fn run_grammar(g: &G, defs: &[ProbeDef], probes: &Probes, depth: usize, max_
     if let Some(f) = batch.failed {
         return Err(RunError::Machinery(format!("{f}; stderr: {}", batch.stderr.chars().take(400).collect::<String>())));
     }
-    let mut run = GrammarRun { text: text.clone(), exploration: ex, validated: 0, mismatches: vec![], answers: vec![], outcomes: BTreeSet::new() };
+    let mut run = GrammarRun { text: text.clone(), exploration: ex, validated: 0, mismatches: vec![], answers: vec![], outcomes: BTreeSet::new(), log_checked: 0 };
     let strict = Rules::default();
     let f6 = Rules { within_word_prefix_accepted: true, ..Default::default() };
     let f7 = Rules { last_word_command_mismatch_completes: true, ..Default::default() };
@@ -502,7 +533,14 @@ pub fn run_grammar(g: &G, defs: &[ProbeDef], probes: &Probes, depth: usize, max_
         let Some(exp_alts) = expected(&a, probes, t, &strict) else { continue };
         let exp = exp_alts.last().unwrap().clone();
         run.validated += 1;
-        run.outcomes.insert(crate::report::fnv(&format!("{:?}{:?}", ans.rc, ans.replies)));
+        run.outcomes.insert(crate::report::fnv(&format!("{:?}{:?}{:?}", ans.rc, ans.replies, ans.log)));
+        if check_log && agrees_any(&exp_alts, ans).is_ok() {
+            if let Some(m) = log_check(&a, probes, t, ans, &text, &c.command) {
+                run.mismatches.push(m);
+            } else {
+                run.log_checked += 1;
+            }
+        }
         if let Err(why) = agrees_any(&exp_alts, ans) {
             // does exactly one listed deviation rule explain it?
             let mut key = None;
@@ -540,4 +578,95 @@ pub fn run_grammar(g: &G, defs: &[ProbeDef], probes: &Probes, depth: usize, max_
     }
     run.answers = batch.answers;
     Ok(run)
+}
+
+
+/// C17: the probe log of one trace against the model (completion phase exact, matching phase
+/// by inclusion, nothing else ever runs)
+fn log_check(a: &RefAuto, probes: &Probes, t: &Trace, ans: &Answer, text: &str, cmdname: &str) -> Option<Mismatch> {
+    // id -> command text
+    let mut calls: Vec<(String, String, String)> = vec![];
+    for line in &ans.log {
+        let f: Vec<&str> = line.splitn(4, '|').collect();
+        if f.len() < 4 {
+            continue;
+        }
+        calls.push((bashrun::probe_cmd(f[0]), f[2].to_string(), f[3].to_string()));
+    }
+    let line = format!("{} {}<TAB>", cmdname, t.path.iter().map(|w| format!("{w} ")).collect::<String>() + &t.cursor);
+    let mk = |key: &str, why: String| {
+        Some(Mismatch {
+            key: key.to_string(),
+            summary: format!("`{line}` for grammar `{}`: {why}", text.trim_end().replace('\n', " ")),
+            detail: J::obj(vec![("grammar", J::s(text)), ("command_line", J::s(&line)), ("probe_log", J::arr_s(ans.log.iter().cloned())), ("why", J::s(&why))]),
+        })
+    };
+    // walk the path under the strict model
+    let rules = Rules::default();
+    let mut set = a.start_set();
+    let mut states: Vec<(StateSet, String)> = vec![];
+    for w in &t.path {
+        states.push((set.clone(), w.clone()));
+        match read_word(a, &set, w, probes, &rules) {
+            Read::To(n) => set = n,
+            _ => {
+                // not matched: whatever ran must still have been expected where it ran
+                for c in &calls {
+                    if !states.iter().any(|(s, w)| refrun::matching_probe_calls_allowed(a, s, w, probes, c)) {
+                        return mk("probe-ran-unexpectedly", format!("command `{}` ran with arguments ({:?}, {:?}) although no state on the path expects it that way", c.0, c.1, c.2));
+                    }
+                }
+                return None;
+            }
+        }
+    }
+    let check_at = |final_set: &StateSet, states: &Vec<(StateSet, String)>| -> Result<(), (String, String)> {
+        let Some((expected, allowed)) = refrun::completion_probe_calls(a, final_set, &t.cursor, probes) else { return Ok(()) };
+        // completion phase: every expected call must be in the log (once)
+        let mut rest = calls.clone();
+        for e in &expected {
+            match rest.iter().position(|c| c == e) {
+                Some(i) => {
+                    rest.remove(i);
+                }
+                None => {
+                    return Err((
+                        "probe-call-missing".into(),
+                        format!("completing {:?}: command `{}` should run with $1={:?} $2={:?}; log: {:?}", t.cursor, e.0, e.1, e.2, ans.log),
+                    ))
+                }
+            }
+        }
+        // what remains belongs to the matching of earlier words, or to the walk over the word
+        // under the cursor (commands expected at a point inside that word)
+        for c in &rest {
+            let ok = states.iter().any(|(s, w)| refrun::matching_probe_calls_allowed(a, s, w, probes, c)) || allowed.contains(c) || expected.contains(c);
+            if !ok {
+                return Err((
+                    "probe-ran-unexpectedly".into(),
+                    format!("command `{}` ran with arguments ($1={:?}, $2={:?}) although neither the completion point nor any earlier word expects it that way; log: {:?}", c.0, c.1, c.2, ans.log),
+                ));
+            }
+        }
+        Ok(())
+    };
+    match check_at(&set, &states) {
+        Ok(()) => None,
+        Err((key, why)) => {
+            // F7: the walk may have stopped before the last complete word (listed known finding)
+            if let Some((before, last)) = states.last() {
+                let edges = a.out_edges(before);
+                let lit_or_sub = edges.iter().any(|(l, _)| match &a.labels[*l] {
+                    RLabel::Lit { text, .. } => text == last,
+                    RLabel::Sub { auto, .. } => refrun::sub_accepts(auto, last, probes, &rules) == refrun::Tri::Yes,
+                    _ => false,
+                });
+                let failing_cmd = edges.iter().any(|(l, _)| matches!(&a.labels[*l], RLabel::Cmd { text, .. } if { let c = probes.candidates(text); !c.is_empty() && !c.iter().any(|x| x == last) }));
+                if !lit_or_sub && failing_cmd && check_at(before, &states).is_ok() {
+                    return mk("last-word-command-mismatch-completes", format!("probe log shows completion running from the state before the last word: {why}"));
+                }
+            }
+            mk(&key, why)
+        }
+    }
 }
